@@ -322,6 +322,7 @@ pub fn run(args: &[String]) -> i32 {
             }
         }
         reuse_after_sink_error(&mut out, &schema, &text, &vals);
+        retry_after_failed_flush(&mut out, &schema, &text, &vals);
         // single-object writer, two messages through one instance
         {
             let (schema, vs) = (&schema, vals.clone());
@@ -358,6 +359,55 @@ impl std::io::Write for FailAfter {
     }
     fn flush(&mut self) -> std::io::Result<()> {
         Ok(())
+    }
+}
+
+/// a sink whose `flush` fails once (its writes all succeed): the block was delivered, so a `flush()` that is retried,
+/// and everything after it, must deliver exactly what a perfect sink gets - in particular not the block again
+struct FlushFailsOnce {
+    failed: bool,
+    got: std::rc::Rc<std::cell::RefCell<Vec<u8>>>,
+}
+impl std::io::Write for FlushFailsOnce {
+    fn write(&mut self, buf: &[u8]) -> std::io::Result<usize> {
+        self.got.borrow_mut().extend_from_slice(buf);
+        Ok(buf.len())
+    }
+    fn flush(&mut self) -> std::io::Result<()> {
+        if !self.failed {
+            self.failed = true;
+            return Err(std::io::Error::new(ErrorKind::Interrupted, "injected"));
+        }
+        Ok(())
+    }
+}
+
+fn retry_after_failed_flush(out: &mut Out, schema: &Schema, text: &str, vals: &[Value]) {
+    let run = |fail: bool| -> Result<(Vec<u8>, bool), String> {
+        let got = std::rc::Rc::new(std::cell::RefCell::new(Vec::new()));
+        let sink = FlushFailsOnce { failed: !fail, got: got.clone() };
+        let mut w = Writer::builder().schema(schema).writer(sink).marker([5; 16]).build().map_err(|e| e.to_string())?;
+        w.append_value_ref(&vals[0]).map_err(|e| e.to_string())?;
+        let first = w.flush();
+        let second = w.flush().map_err(|e| e.to_string())?;
+        let _ = second;
+        w.append_value_ref(&vals[1]).map_err(|e| e.to_string())?;
+        w.into_inner().map_err(|e| e.to_string())?;
+        let bytes = got.borrow().clone();
+        Ok((bytes, first.is_err()))
+    };
+    let case = format!("container: append, flush (the sink's flush fails once), flush again, append, into_inner; schema={}", crate::util::trunc(text, 300));
+    match (crate::util::catch(|| run(false)), crate::util::catch(|| run(true))) {
+        (Ok(Ok((want, _))), Ok(Ok((got, reported)))) => {
+            if !reported {
+                out.oracle_fail("sink-error-not-reported", "the failing flush of the sink was not reported", &case);
+            }
+            if got != want && !same_container(&got, &want) {
+                out.oracle_fail("retried-flush-delivers-again", &format!("after the retried flush the sink holds {} bytes, a perfect sink {}", got.len(), want.len()), &case);
+            }
+        }
+        (_, Err(())) => out.oracle_fail("panic", "the writer panicked", &case),
+        _ => {}
     }
 }
 
